@@ -1,5 +1,5 @@
 //! C09: the authentication handshake over TLS.  Same scenario format and event log as `wire`
-//! (steps: connect / send / recv / close / sleep / wait_tasks), but every client first sends an
+//! (steps: connect / send / recv / close / sleep / wait_tasks / control / backend{shadow}), but every client first sends an
 //! SSLRequest, performs a rustls handshake (no certificate verification) when pgcat answers 'S',
 //! and then speaks the protocol inside the TLS channel.  pgcat runs in-process with
 //! general.tls_certificate / tls_private_key set (the scenario's toml names the files).
@@ -248,6 +248,29 @@ async fn run(scn: Value) -> Value {
                 }
             }
             "sleep" => tokio::time::sleep(std::time::Duration::from_millis(step["ms"].as_u64().unwrap_or(10))).await,
+            "control" => {
+                // the transcription of main.rs's signal arms (pooler.rs): "int" sets admin_only for later accepts
+                let c = match step["sig"].as_str().unwrap_or("") {
+                    "int" => pooler::Control::Sigint,
+                    "term" => pooler::Control::Sigterm,
+                    _ => pooler::Control::Sighup,
+                };
+                let _ = p.control.send(c).await;
+                mockpg::log_event(&log, json!({"who": "harness", "ev": "control", "sig": step["sig"]}));
+            }
+            "backend" => {
+                // replace the auth_query answers of a mock backend
+                if let Some(b) = backends.get(step["b"].as_str().unwrap_or("")) {
+                    if let Some(sh) = step.get("shadow").and_then(|x| x.as_object()) {
+                        let mut g = b.shadow.lock();
+                        g.clear();
+                        for (k, v) in sh {
+                            g.insert(k.clone(), v.as_str().unwrap_or("").to_string());
+                        }
+                    }
+                    mockpg::log_event(&log, json!({"who": "harness", "ev": "backend_mode", "b": step["b"]}));
+                }
+            }
             "wait_tasks" => {
                 let n = step["n"].as_u64().unwrap_or(0) as usize;
                 let t0 = std::time::Instant::now();
